@@ -5,3 +5,4 @@ import PetlProofs.Props.C05
 import PetlProofs.Props.C06
 import PetlProofs.Props.C07
 import PetlProofs.Props.C08
+import PetlProofs.Props.C09
